@@ -13,8 +13,9 @@ namespace
   const char *ATOMN[] = {"temperature","composition","composition","grains","grains","grains","tag","velocity"};
   // origins (lattice units) and directions
   const P2 ORIG[] = {{{-4.5,-3.5}}, {{0,0}}, {{-2,3}}, {{3,-1}}, {{-4,2}}};
-  const P2 DIR[] = {{{1,0}}, {{0,1}}, {{-1,0}}, {{3,4}}, {{-5,12}}, {{1,1}}, {{4,-3}}};
-  const size_t NORIG = 5, NDIR = 7;
+  // (the last two: second point 340 resp. 200 units of x away - in spherical worlds more than half a turn of longitude; the section still runs the way it is written)
+  const P2 DIR[] = {{{1,0}}, {{0,1}}, {{-1,0}}, {{3,4}}, {{-5,12}}, {{1,1}}, {{4,-3}}, {{136,8}}, {{-80,-12}}};
+  const size_t NORIG = 5, NDIR = 9;
 
   std::vector<Request> requests()
   {
@@ -219,7 +220,7 @@ int main(int argc, char **argv)
   Spec spec;
   spec.property = "C09";
   spec.level = "exploration";
-  spec.rule = "full product of cross sections (5 origins x 7 directions incl. oblique, negative and Pythagorean ones x both coordinate systems [x 2 world files in thorough]) on a rich world with every "
+  spec.rule = "full product of cross sections (5 origins x 9 directions incl. oblique, negative and Pythagorean ones and two whose second point lies more than half a turn of longitude away x both coordinate systems [x 2 world files in thorough]) on a rich world with every "
               "feature type; per section a 2-D lattice (21 positions x 6 depths) x all request lists of length <= 2 over 8 atoms: the 2-D answer is compared with the 3-D answer at the point computed "
               "from the statement; plus adjacent-double pairs straddling feature boundaries queried in->out->in. non-trivial: the section crosses at least one feature; tuples distinct by construction";
   spec.assumptions = {"spherical sections follow the straight line in (longitude, latitude) from the first towards the second point", "a mismatch is only a violation at robust points (6 spatial neighbours and 2 depth neighbours at 1e-6 scale give the same tag/compositions); others are counted as skipped_near_boundary",
@@ -231,7 +232,7 @@ int main(int argc, char **argv)
     const bool th = tier == "thorough";
     std::vector<Suite> s;
     Suite a; a.name = "sections"; a.n = 2*2*NORIG*NDIR*(th ? 2 : 1); a.run = [th](uint64_t i, Ctx &c) { run_section(th, i, c); };
-    a.bound = "2 coordinate systems x forced surface temperature {off,on} x 5 origins x 7 directions" + std::string(th ? " x 2 world files" : "") + "; 189 2-D points (9 depths incl. just above/at/below the surface) x 72 request lists each, plus the temperature/composition entry points";
+    a.bound = "2 coordinate systems x forced surface temperature {off,on} x 5 origins x 9 directions" + std::string(th ? " x 2 world files" : "") + "; 189 2-D points (9 depths incl. just above/at/below the surface) x 72 request lists each, plus the temperature/composition entry points";
     s.push_back(a);
     Suite b; b.name = "nosection"; b.n = 4; b.run = run_nosection; b.bound = "worlds without cross section (cartesian, spherical) x forced surface temperature {off,on}: all six 2-D entry points must throw std::exception at 3 points x 7 depths (incl. 0, +-1e-17, negative)";
     s.push_back(b);
